@@ -20,6 +20,9 @@ func init() {
 			ro.canceledSites(r, "canceled-site")
 			ro.dequeueIndependent(r, "dequeue-independent-of-new-definition")
 			ro.admissionTable(r, "table.admission", "equal")
+			// a slot counts as taken exactly while a job of the list is running: a count that can stay up (a counter that is not
+			// released on some path) makes every later job of the pipeline wait forever
+			ro.countShape(r, "table.count-shape")
 			ro.noLostUpdate(r, "no-lost-update")
 			retentionTable(w, r)
 			// (5) no ghost holds a slot: every job restored from the store ends terminal
